@@ -4,6 +4,7 @@ import (
 	"fmt"
 	"go/token"
 	"go/types"
+	"sort"
 
 	"golang.org/x/tools/go/ssa"
 
@@ -950,8 +951,19 @@ func (c *Ctx) adp8Adjacency(clean *ssa.Function, a *acc) {
 }
 
 // adp4Junction judges the PUBREL→PUBLISH junction of AdoptSession on the vectors.
+func goneKinds(m map[listKind]bool) []string {
+	var out []string
+	for k := range m {
+		out = append(out, string(k))
+	}
+	sort.Strings(out)
+	return out
+}
+
 func (c *Ctx) adp4Junction(ad *ssa.Function, a *acc, lc *listClasses, kinds map[ssa.Value]listKind) {
 	pm := c.constInt("publishIDMask")
+	dropList := c.acc("ADP-9", ad, "junction-gap⇒the-PUBREL-list-is-what-is-dropped")
+	defer dropList.done(1, "on every path that warns about the junction the PUBREL list, and only it, is nil afterwards")
 	for _, vec := range c.adjVectors() {
 		kept, dropped := 0, 0
 		var bad *pathx.Path
@@ -992,8 +1004,11 @@ func (c *Ctx) adp4Junction(ad *ssa.Function, a *acc, lc *listClasses, kinds map[
 						return leafN
 					}
 				case listREL:
+					// the last element: index len(L)-1 of the very list that is indexed
 					if sub, ok := expand(ia.Index).(*ssa.BinOp); ok && sub.Op == token.SUB && isK(sub.Y, 1) {
-						return leafP
+						if arg, isLen := builtinCall(expand(sub.X), "len"); isLen && lc.find(expand(arg)) == lc.find(base) {
+							return leafP
+						}
 					}
 				}
 				return leafNone
@@ -1053,14 +1068,54 @@ func (c *Ctx) adp4Junction(ad *ssa.Function, a *acc, lc *listClasses, kinds map[
 				continue
 			}
 			drop := false
+			iWarn := -1
 			for i := 0; i < upto; i++ {
 				if isAppendTo(&p.Events[i], "[]error") {
 					// a warning that names the junction: issued after both were consulted
 					drop = true
+					iWarn = i
 				}
 			}
 			if drop {
 				dropped++
+				// what is dropped is the PUBREL list (the older part: it cannot be
+				// resumed without the PUBLISH records that follow) — the list that
+				// is nil behind the warning is that one, and only that one
+				gone := map[listKind]bool{}
+				for j, b := range p.Blocks {
+					if j >= len(p.BlockEv) || p.BlockEv[j] <= iWarn || b.Parent() != ad {
+						continue
+					}
+					for _, ins := range b.Instrs {
+						phi, isPhi := ins.(*ssa.Phi)
+						if !isPhi {
+							break
+						}
+						if !isUintList(phi.Type()) || choice[phi] == nil || !pathx.IsNilConst(choice[phi]) {
+							continue
+						}
+						if k, has := kinds[lc.find(phi)]; has {
+							gone[k] = true
+						}
+					}
+				}
+				// (a list captured by a closure lives in a cell: the drop is a store of nil)
+				for i := iWarn + 1; i < upto; i++ {
+					e := &p.Events[i]
+					if e.Kind != pathx.KStore || !pathx.IsNilConst(e.Val) {
+						continue
+					}
+					if al, isCell := e.Addr.(*ssa.Alloc); isCell && isUintList(al.Type()) {
+						if k, has := kinds[lc.find(al)]; has {
+							gone[k] = true
+						}
+					}
+				}
+				if (gone[listEO] || gone[listALO] || !gone[listREL]) && dropList != nil {
+					dropList.fail(p, iWarn, "behind the warning about a gap between the last PUBREL and the first exactly-once PUBLISH the lists set to nil are %v, want the PUBREL list and nothing else: the records the warning names stay adopted, and the ones that are dropped are dropped in silence", goneKinds(gone))
+				} else if dropList != nil {
+					dropList.pass()
+				}
 			} else {
 				kept++
 			}
